@@ -200,7 +200,7 @@ impl GameData {
     fn parse_repository_category(&self, path: &str) -> Option<(&Repository, Category)> {
         let tokens = path.split_once('/')?;
 
-        let repository_token = tokens.1;
+        let repository_token = tokens.1.split('/').next()?;
 
         for repository in &self.repositories {
             if repository.name == repository_token {
